@@ -122,35 +122,69 @@ def _local_fn(facts, name):
     return None
 
 
-def expand(facts, d, depth=0, keep=()):
-    """inline pure crate-local helper calls (except those whose name matches an entry of `keep`) and value combinators"""
-    if depth > MAX_DEPTH:
-        return d
+COMBINATORS = ('bool::then', 'bool::then_some')
+_inl_cache = {}
 
-    def fn(n):
-        if n[0] != 'call' or not isinstance(n[1], str):
-            return None
-        name = n[1]
-        args = tuple(expand(facts, a, depth, keep) if isinstance(a, tuple) else a for a in n[2:])
-        # ---- value combinators
-        if name in ('bool::then',) and len(args) == 2 and args[1][0] == 'closure':
+
+def inlinable(facts, d):
+    """names of the calls in d that expand() could rewrite (pure crate-local helpers, value combinators); cached per DAG"""
+    key = (id(facts), d)
+    r = _inl_cache.get(key)
+    if r is None:
+        r = set()
+        for x in subterms(d):
+            if isinstance(x, tuple) and x and x[0] == 'call' and isinstance(x[1], str):
+                if x[1] in COMBINATORS:
+                    r.add(x[1])
+                else:
+                    b = _local_fn(facts, x[1])
+                    if b is not None and is_pure(b) and len(x) - 2 == b.argc:
+                        r.add(x[1])
+        r = frozenset(r)
+        if len(_inl_cache) > 100000:
+            _inl_cache.clear()
+        _inl_cache[key] = r
+    return r
+
+
+def expand(facts, d, depth=0, keep=()):
+    """inline pure crate-local helper calls (except those whose name matches an entry of `keep`) and value combinators;
+    one pass, simplified once at the end"""
+    names = inlinable(facts, d)
+    if not names or all(any(k in n for k in keep) for n in names):
+        return d
+    return simplify(_exp(facts, d, depth, keep, {}))
+
+
+def _exp(facts, d, depth, keep, memo):
+    if not isinstance(d, tuple) or not d or not isinstance(d[0], str) or d[0] in ('param', 'const', 'fn', 'undef', 'loop', 'loopid'):
+        if isinstance(d, tuple) and d and not isinstance(d[0], str):
+            return tuple(_exp(facts, x, depth, keep, memo) if isinstance(x, tuple) else x for x in d)
+        return d
+    k = id(d)
+    if k in memo:
+        return memo[k][1]
+    if d[0] == 'call' and isinstance(d[1], str):
+        name = d[1]
+        args = tuple(_exp(facts, a, depth, keep, memo) if isinstance(a, tuple) else a for a in d[2:])
+        out = ('call', name) + args
+        if name == 'bool::then' and len(args) == 2 and isinstance(args[1], tuple) and args[1] and args[1][0] == 'closure':
             v = closure_apply(facts, args[1], ())
             if v is not None:
-                return ('ite', args[0], ('agg', 'option::Option::Some', ('0', expand(facts, v, depth + 1, keep))), ('agg', 'option::Option::None'))
-        if name == 'bool::then_some' and len(args) == 2:
-            return ('ite', args[0], ('agg', 'option::Option::Some', ('0', args[1])), ('agg', 'option::Option::None'))
-        b = _local_fn(facts, name)
-        if b is None or not is_pure(b):
-            return ('call', name) + args if args != n[2:] else None
-        if any(k in name for k in keep):
-            return ('call', name) + args if args != n[2:] else None
-        if len(args) != b.argc:
-            return None
-        r = retval(b)
+                out = ('ite', args[0], ('agg', 'option::Option::Some', ('0', _exp(facts, v, depth + 1, keep, memo) if depth < MAX_DEPTH else v)), ('agg', 'option::Option::None'))
+        elif name == 'bool::then_some' and len(args) == 2:
+            out = ('ite', args[0], ('agg', 'option::Option::Some', ('0', args[1])), ('agg', 'option::Option::None'))
+        elif depth < MAX_DEPTH and not any(kk in name for kk in keep):
+            b = _local_fn(facts, name)
+            if b is not None and is_pure(b) and len(args) == b.argc:
+                r = retval(b)
 
-        def sub(m):
-            if m[0] == 'param' and 1 <= m[1] <= len(args):
-                return args[m[1] - 1]
-            return None
-        return expand(facts, simplify(subst(r, sub)), depth + 1, keep)
-    return simplify(subst(d, fn))
+                def sub(m):
+                    if m[0] == 'param' and 1 <= m[1] <= len(args):
+                        return args[m[1] - 1]
+                    return None
+                out = _exp(facts, subst(r, sub), depth + 1, keep, {})
+    else:
+        out = tuple(_exp(facts, x, depth, keep, memo) if isinstance(x, tuple) else x for x in d)
+    memo[k] = (d, out)       # keep d alive so that its id is not reused
+    return out
